@@ -277,5 +277,6 @@ func genMotif(rt *rapid.T, w *World, motif int) {
 	}
 	for i := range w.Vulns {
 		w.Vulns[i].Severity = draw(rt, fmt.Sprintf("m.sev%d", i), "", "", "high", "low")
+		w.Vulns[i].Withdrawn = chance(rt, fmt.Sprintf("m.withdrawn%d", i), 1, 10)
 	}
 }
